@@ -241,6 +241,10 @@ func c12VersionCoverage(c *rt.Ctx) {
 		}
 		sort.Strings(miss)
 		sort.Strings(extra)
+		if in := c12n4DataDispatch(bcl); len(miss) > 0 && in != nil {
+			c.Unsure(name+" covers supportedVersions", fn.Pos(), "the dispatcher selects its version-specific function through a table of function values built for every version ("+c.P.Pos(in.Pos())+"), which the valuation of the version tests cannot follow")
+			continue
+		}
 		if len(miss) > 0 && imprecise {
 			c.Unsure(name+" covers supportedVersions", fn.Pos(), "a version-dependent condition of the dispatch cannot be evaluated statically (missing "+strings.Join(miss, ",")+"?)")
 			continue
